@@ -20,6 +20,8 @@ func Dump(p *Prog, what string) {
 	switch {
 	case what == "pinned":
 		os.Stdout.Write(PinnedTable(p))
+	case what == "pinnedglobals":
+		os.Stdout.Write(PinnedGlobalsTable(p))
 	case what == "pinnedtypes":
 		os.Stdout.Write(PinnedTypesTable(p))
 	case what == "pinnedfields":
